@@ -90,6 +90,28 @@ vgp_malloc_ok(size_t n)
 }
 #define malloc(n) vgp_malloc_ok(n)
 #endif
+/* memmove model: cbmc's built-in memmove with a symbolic length runs out of memory in the bounded reference-model obligations
+   (the current vgp.c does not call memmove at all; a rewrite of Vdeletetagref's shift loop with it must stay decidable).  Exact
+   semantics (copy through a temporary) for up to 16 bytes, unrolled by hand so that no unwinding bound is involved; a longer
+   move cannot occur under the stated bounds (msize <= 5 members of 2 bytes) and is reported if it does. */
+static void *
+h4v_memmove(void *d, const void *s, size_t n)
+{
+    unsigned char        t[16];
+    unsigned char       *dp = (unsigned char *)d;
+    const unsigned char *sp = (const unsigned char *)s;
+    H4V_CHECK(n <= 16, "memmove model: at most 16 bytes under the stated bounds");
+#define H4V_MM_R(i) if ((size_t)(i) < n) t[i] = sp[i];
+#define H4V_MM_W(i) if ((size_t)(i) < n) dp[i] = t[i];
+    H4V_MM_R(0) H4V_MM_R(1) H4V_MM_R(2) H4V_MM_R(3) H4V_MM_R(4) H4V_MM_R(5) H4V_MM_R(6) H4V_MM_R(7)
+    H4V_MM_R(8) H4V_MM_R(9) H4V_MM_R(10) H4V_MM_R(11) H4V_MM_R(12) H4V_MM_R(13) H4V_MM_R(14) H4V_MM_R(15)
+    H4V_MM_W(0) H4V_MM_W(1) H4V_MM_W(2) H4V_MM_W(3) H4V_MM_W(4) H4V_MM_W(5) H4V_MM_W(6) H4V_MM_W(7)
+    H4V_MM_W(8) H4V_MM_W(9) H4V_MM_W(10) H4V_MM_W(11) H4V_MM_W(12) H4V_MM_W(13) H4V_MM_W(14) H4V_MM_W(15)
+    return d;
+}
+#ifdef H4V_CBMC
+#define memmove h4v_memmove
+#endif
 #include "vgp.c"
 #if defined(H4V_CBMC) && defined(VGP_ALLOC_OK)
 #undef malloc
